@@ -190,4 +190,137 @@ theorem xfeInverse_none_iff (x : X3) (hx : canon3 x) : xfeInverse x = none ↔ x
     rw [h] at hr; exact absurd hr (by simp)
   · rintro rfl; exact xfeInverse_zero
 
+/-! ### the specification product is associative and unital (through `ZMod P`) -/
+
+theorem xmul_assoc (a b c : X3) : xmul (xmul a b) c = xmul a (xmul b c) := by
+  obtain ⟨l0, l1, l2⟩ := cast_xmul (xmul a b) c
+  obtain ⟨r0, r1, r2⟩ := cast_xmul a (xmul b c)
+  obtain ⟨p0, p1, p2⟩ := cast_xmul a b
+  obtain ⟨q0, q1, q2⟩ := cast_xmul b c
+  obtain ⟨cl0, cl1, cl2⟩ := xmul_canon (xmul a b) c
+  obtain ⟨cr0, cr1, cr2⟩ := xmul_canon a (xmul b c)
+  refine Prod.ext (cast_inj_of_lt cl0 cr0 ?_) (Prod.ext (cast_inj_of_lt cl1 cr1 ?_) (cast_inj_of_lt cl2 cr2 ?_))
+  · rw [l0, r0, p0, p1, p2, q0, q1, q2]; ring
+  · rw [l1, r1, p0, p1, p2, q0, q1, q2]; ring
+  · rw [l2, r2, p0, p1, p2, q0, q1, q2]; ring
+
+theorem xmul_xone (a : X3) (ha : canon3 a) : xmul a xone = a := by
+  obtain ⟨l0, l1, l2⟩ := cast_xmul a xone
+  obtain ⟨c0, c1, c2⟩ := xmul_canon a xone
+  obtain ⟨h0, h1, h2⟩ := ha
+  refine Prod.ext (cast_inj_of_lt c0 h0 ?_) (Prod.ext (cast_inj_of_lt c1 h1 ?_) (cast_inj_of_lt c2 h2 ?_))
+  · rw [l0]; simp [xone]
+  · rw [l1]; simp [xone]
+  · rw [l2]; simp [xone]
+
+/-! ### raw Montgomery words: `TF.Model.XF.inverse`, `inverseOrZero`, `div` -/
+section raw
+open TF.BF TF.Model
+
+theorem toVal_canon (x : XF.X3) (hx : XFp.canon3 x) : canon3 (XF.toVal x) :=
+  ⟨value_lt _ (Nat.lt_trans hx.1 Pn_lt_W), value_lt _ (Nat.lt_trans hx.2.1 Pn_lt_W),
+    value_lt _ (Nat.lt_trans hx.2.2 Pn_lt_W)⟩
+
+theorem ofVal_canon (v : X3) (hv : canon3 v) : XFp.canon3 (XF.ofVal v) ∧ XF.toVal (XF.ofVal v) = v := by
+  obtain ⟨h0, h1, h2⟩ := hv
+  have n (a : ℕ) (h : a < Pn) := new_spec a (Nat.lt_trans h Pn_lt_W)
+  refine ⟨⟨(n _ h0).1, (n _ h1).1, (n _ h2).1⟩, ?_⟩
+  exact Prod.ext (value_new _ h0) (Prod.ext (value_new _ h1) (value_new _ h2))
+
+theorem toVal_inj (x y : XF.X3) (hx : XFp.canon3 x) (hy : XFp.canon3 y) (h : XF.toVal x = XF.toVal y) : x = y := by
+  have h0 : bfe_value x.1 = bfe_value y.1 := congrArg Prod.fst h
+  have h1 : bfe_value x.2.1 = bfe_value y.2.1 := congrArg (fun t => t.2.1) h
+  have h2 : bfe_value x.2.2 = bfe_value y.2.2 := congrArg (fun t => t.2.2) h
+  exact Prod.ext (repr_unique _ _ hx.1 hy.1 h0)
+    (Prod.ext (repr_unique _ _ hx.2.1 hy.2.1 h1) (repr_unique _ _ hx.2.2 hy.2.2 h2))
+
+theorem toVal_zero : XF.toVal XF.zero = xzero := by
+  simp only [XF.toVal, XF.zero, xzero, show bfe_value BF.zero = 0 from val_zero]
+
+theorem toVal_one : XF.toVal XF.one = xone := by
+  simp only [XF.toVal, XF.one, xone, show bfe_value BF.zero = 0 from val_zero,
+    show bfe_value BF.one = 1 from val_one]
+
+theorem canon_zero : canon BF.zero := by unfold canon; decide
+theorem canon_one : canon BF.one := by unfold canon; decide
+theorem canon3_zero : XFp.canon3 XF.zero := ⟨canon_zero, canon_zero, canon_zero⟩
+theorem canon3_one : XFp.canon3 XF.one := ⟨canon_one, canon_zero, canon_zero⟩
+
+/-- the word-level product formula of `XFieldElement::mul` computes the specification product of the values -/
+theorem toVal_mul (x y : XF.X3) (hx : XFp.canon3 x) (hy : XFp.canon3 y) :
+    XF.toVal (XF.mul x y) = xmul (XF.toVal x) (XF.toVal y) := by
+  obtain ⟨hc, h0, h1, h2⟩ := XFp.mul_coeffs x y hx hy
+  obtain ⟨g0, g1, g2⟩ := cast_xmul (XF.toVal x) (XF.toVal y)
+  obtain ⟨c0, c1, c2⟩ := xmul_canon (XF.toVal x) (XF.toVal y)
+  obtain ⟨d0, d1, d2⟩ := toVal_canon _ hc
+  exact Prod.ext (cast_inj_of_lt d0 c0 (h0.trans g0.symm))
+    (Prod.ext (cast_inj_of_lt d1 c1 (h1.trans g1.symm)) (cast_inj_of_lt d2 c2 (h2.trans g2.symm)))
+
+theorem toVal_ne_zero (x : XF.X3) (hx : XFp.canon3 x) (hnz : x ≠ XF.zero) : XF.toVal x ≠ xzero := fun h =>
+  hnz (toVal_inj x XF.zero hx canon3_zero (h.trans toVal_zero.symm))
+
+/-- **`XFieldElement::inverse` on raw words**: for every non-zero element with canonical coefficient words the model
+    does not panic and returns canonical words `r` with `r·x = x·r = 1` for the word-level product `XF.mul` (the three
+    result expressions of the Rust `Mul`), and `r` is the only such element -/
+theorem inverse_spec (x : XF.X3) (hx : XFp.canon3 x) (hnz : x ≠ XF.zero) :
+    ∃ r, XF.inverse x = some r ∧ XFp.canon3 r ∧ XF.mul r x = XF.one ∧ XF.mul x r = XF.one ∧
+      ∀ y, XFp.canon3 y → XF.mul y x = XF.one → y = r := by
+  have hvx := toVal_canon x hx
+  have hvnz := toVal_ne_zero x hx hnz
+  obtain ⟨v, hv, hvc, hl, hr⟩ := xfeInverse_spec (XF.toVal x) hvx hvnz
+  obtain ⟨hrc, hrv⟩ := ofVal_canon v hvc
+  have hone := (XFp.mul_coeffs (XF.ofVal v) x hrc hx).1
+  have hone' := (XFp.mul_coeffs x (XF.ofVal v) hx hrc).1
+  refine ⟨XF.ofVal v, by unfold XF.inverse; rw [hv]; rfl, hrc, ?_, ?_, ?_⟩
+  · apply toVal_inj _ _ hone canon3_one
+    rw [toVal_mul _ _ hrc hx, hrv, hl, toVal_one]
+  · apply toVal_inj _ _ hone' canon3_one
+    rw [toVal_mul _ _ hx hrc, hrv, hr, toVal_one]
+  · intro y hy hyx
+    apply toVal_inj _ _ hy hrc
+    rw [hrv]
+    have : xmul (XF.toVal y) (XF.toVal x) = xone := by
+      rw [← toVal_mul _ _ hy hx, hyx, toVal_one]
+    exact spec_inverse_unique (XF.toVal x) _ _ hvx hvnz (toVal_canon y hy) hvc (xmul_one_comm _ _ this) hr
+
+theorem inverse_zero : XF.inverse XF.zero = none := by
+  unfold XF.inverse
+  rw [toVal_zero, xfeInverse_zero]; rfl
+
+theorem inverse_none_iff (x : XF.X3) (hx : XFp.canon3 x) : XF.inverse x = none ↔ x = XF.zero := by
+  constructor
+  · intro h
+    by_contra hnz
+    obtain ⟨r, hr, _⟩ := inverse_spec x hx hnz
+    rw [h] at hr; exact absurd hr (by simp)
+  · rintro rfl; exact inverse_zero
+
+/-- `inverse_or_zero`: zero for zero, the inverse otherwise; never panics -/
+theorem inverseOrZero_spec (x : XF.X3) (hx : XFp.canon3 x) :
+    (x = XF.zero → XF.inverseOrZero x = some XF.zero) ∧
+    (x ≠ XF.zero → ∃ r, XF.inverseOrZero x = some r ∧ XF.inverse x = some r) := by
+  constructor
+  · rintro rfl; rfl
+  · intro hnz
+    obtain ⟨r, hr, _⟩ := inverse_spec x hx hnz
+    have h0 : (x == XF.zero) = false := by simpa using hnz
+    exact ⟨r, by unfold XF.inverseOrZero; rw [h0]; exact hr, hr⟩
+
+/-- `Div`: `a / b = a·b⁻¹`, canonical, and `(a / b)·b = a`; panics exactly for `b = 0` -/
+theorem div_spec (a b : XF.X3) (ha : XFp.canon3 a) (hb : XFp.canon3 b) :
+    (b = XF.zero → XF.div a b = none) ∧
+    (b ≠ XF.zero → ∃ bi r, XF.inverse b = some bi ∧ XF.div a b = some r ∧ r = XF.mul a bi ∧ XFp.canon3 r ∧
+      XF.mul r b = a) := by
+  constructor
+  · rintro rfl; unfold XF.div; rw [inverse_zero]; rfl
+  · intro hnz
+    obtain ⟨bi, hbi, hbc, hl, _, _⟩ := inverse_spec b hb hnz
+    have hrc := (XFp.mul_coeffs a bi ha hbc).1
+    refine ⟨bi, XF.mul a bi, hbi, by unfold XF.div; rw [hbi]; rfl, rfl, hrc, ?_⟩
+    apply toVal_inj _ _ (XFp.mul_coeffs _ b hrc hb).1 ha
+    rw [toVal_mul _ _ hrc hb, toVal_mul _ _ ha hbc, xmul_assoc, ← toVal_mul _ _ hbc hb, hl, toVal_one,
+      xmul_xone _ (toVal_canon a ha)]
+
+end raw
+
 end TF.XFInvProofs
